@@ -11,3 +11,5 @@ pub mod registry;
 pub mod scn_basic;
 pub mod scn_c13;
 pub mod scn_conc;
+pub mod scn_c14;
+pub mod scn_seq;
